@@ -309,6 +309,20 @@ def run(res, b, tier, seed):
                     bad.append((c, st, "empty error message"))
             else:
                 bad.append((c, st, cls + " " + (bytes.fromhex(payload).decode("utf-8", "replace") if payload and cls == "PANIC" else "")))
+    # the same import graphs through the built COMMAND with the main file named by a RELATIVE path (the in-process harness hands over absolute
+    # paths, as the test suite does): the run must end - a script or a regular error, never the Go runtime's "fatal error", a signal or the
+    # watchdog - and with the verdict of the absolute run (round 15: C13-H, the cycle check compared absolute paths with a chain of paths as typed;
+    # every cycle below a relative main path recursed until the memory was gone)
+    rel_cases = [c for c in cases if c.meta["kind"] == "imports" and isinstance(c.files.get(c.main), bytes)]
+    rel_runs = common.pmap_proc(_cli_relative, [(b.tsh, c.main, {k: v for k, v in c.files.items() if isinstance(v, bytes)}) for c in rel_cases], chunksize=4)
+    rel_classes = {}
+    for c, (cls, detail) in zip(rel_cases, rel_runs):
+        rel_classes[cls] = rel_classes.get(cls, 0) + 1
+        absolute = c.out.get("BASH", ("MISSING", ""))[0]
+        if cls not in ("OK", "ERR"):
+            bad.append((c, "CLI-RELATIVE", cls + " " + detail))
+        elif absolute in ("OK", "ERR") and absolute != cls:
+            bad.append((c, "CLI-RELATIVE", "relative main path: %s, absolute main path: %s %s" % (cls, absolute, detail)))
     distinct = len({(c.out.get("AST", ("", ""))[0], c.out.get("AST", ("", ""))[1][:200]) for c in cases})
     res.coverage.update(dict(
         evaluations=len(cases),
@@ -320,6 +334,7 @@ def run(res, b, tier, seed):
         classes=classes,
         correspondence=dict(stage="lexer result class (ok/error) of Model.Lexer vs lexer.Tokenize", compared=len(lex_idx), disagreements=len(dis)),
         oracle_failures=len(bad),
+        relative_main_path=dict(stage="the built command, main file named by a relative path, on the import graphs", runs=len(rel_cases), classes=rel_classes),
     ))
     res.assumptions.append("wall-clock bound observed by a watchdog (120 s per chunk); 'bounded time' itself is represented by fuel sufficiency in the theorems")
     real = []
@@ -338,6 +353,37 @@ def run(res, b, tier, seed):
             res.violation("correspondence", dict(stage="lexer class", model=m, implementation=i, files_hex={k: v.hex() for k, v in c.files.items()}), no_input=True)
         else:
             res.violation("theorem", dict(broken=pr["broken"], log=pr["log"][-3000:]), no_input=True)
+
+
+def _cli_relative(arg):
+    """the tsh command in a scratch directory, main file given as typed (relative), address space and time limited"""
+    import os, shutil, subprocess, tempfile
+    tsh, main, files = arg
+    d = tempfile.mkdtemp(prefix="tshrel-")
+    try:
+        for rel, data in files.items():
+            q = os.path.join(d, rel)
+            os.makedirs(os.path.dirname(q), exist_ok=True)
+            if os.path.isdir(q):
+                continue
+            open(q, "wb").write(data)
+        os.makedirs(os.path.join(d, "out-dir"), exist_ok=True)
+        try:
+            pr = subprocess.run(["bash", "-c", 'ulimit -v 3000000; exec "$0" -i "$1" -t bash -o out-dir', tsh, main], cwd=d, stdout=subprocess.PIPE,
+                                stderr=subprocess.PIPE, timeout=60, env=dict(os.environ, GOMEMLIMIT="2GiB"))
+        except subprocess.TimeoutExpired:
+            return ("TIMEOUT", "no result after 60 s")
+        err = pr.stderr.decode("utf-8", "replace")
+        if pr.returncode < 0:
+            return ("SIGNAL", "signal %d %s" % (-pr.returncode, err[:300]))
+        if "fatal error:" in err or "runtime error" in err or "stack overflow" in err or "goroutine stack exceeds" in err:
+            return ("CRASH", err[:400])
+        if pr.returncode == 0:
+            made = [f for f in os.listdir(os.path.join(d, "out-dir"))]
+            return ("OK", "") if made else ("NOTHING", "exit 0 without a script")
+        return ("ERR", err[:200])
+    finally:
+        shutil.rmtree(d, ignore_errors=True)
 
 
 def classify(c, st, what):
